@@ -156,6 +156,10 @@ def emitted_fields(enc, fo):
                     t = fo.tag(a.right.elts[0])
                     if t is not None:
                         out.append((t, a.right.elts[1], a, st.targets[0].id))
+    # an operand first put into a local that is assigned exactly once (`v = session.sender_comp_id` ... `'%s=%s' % (T, v)`) is that value
+    from sa.guards import single_defs
+    sd = single_defs(enc)
+    out = [(t, (sd[e.id] if isinstance(e, ast.Name) and e.id in sd and not isinstance(sd[e.id], ast.Name) else e), c, l) for t, e, c, l in out]
     return out
 
 
@@ -176,7 +180,11 @@ def seq_rule(ctx, rule, repo, res, fo):
     if raw is None:
         raise AnalysisError("encode: raw_seq_num parameter not found")
     allocs = [c for c in walk_no_nested(enc) if isinstance(c, ast.Call) and res.resolve(c, enc) == ("func", "FIXSession.allocate_next_num_out")]
-    ctx.instance(rule, "Codec.encode[one allocation site]", len(allocs) == 1, f"{len(allocs)} calls of allocate_next_num_out in the encoder", loc(enc))
+    # never two allocations for one frame: no allocation call is reachable from another one (several sites in exclusive branches are one choice)
+    alloc_nodes = sorted({i for c in allocs for i in g.ids_of(c)})
+    twice = [(a, b) for a in alloc_nodes for b in alloc_nodes if g.reaches(a, b, exc=False)]
+    ctx.instance(rule, "Codec.encode[one allocation site]", bool(allocs) and not twice,
+                 f"{len(allocs)} calls of allocate_next_num_out in the encoder" + (", one reachable from another: a frame can consume two numbers" if twice else ""), loc(enc))
     defs = rd[at].get(var, set())
     n_alloc = n_carry = 0
     for d in sorted(defs):
@@ -201,12 +209,22 @@ def seq_rule(ctx, rule, repo, res, fo):
         elif re.search(r"msg\[FTag\.MsgSeqNum\]", txt):
             n_carry += 1
             ok = is_raw or seqreset_t or poss_t
-            ctx.instance(rule, f"Codec.encode[carry on {'raw' if is_raw else 'SequenceReset' if seqreset_t else 'PossDup' if poss_t else '?'} path]", ok,
+            either = False
+            if not ok:
+                # `if <SequenceReset> or <PossDupFlag=Y> [or raw]:` - a disjunction of nothing but the admissible reasons
+                for t, lab in g.guards(d, exc=False):
+                    if lab == "true" and isinstance(t, ast.BoolOp) and isinstance(t.op, ast.Or):
+                        def admissible(x):
+                            u = unparse(x)
+                            return u == raw or re.fullmatch(r".+ == FMsg\.SEQUENCERESET", u) or ("PossDupFlag" in u and re.search(r"== 'Y'$", u))
+                        if all(admissible(x) for x in t.values):
+                            ok = either = True
+            ctx.instance(rule, f"Codec.encode[carry on {'raw' if is_raw else 'SequenceReset' if seqreset_t else 'PossDup' if poss_t else 'SequenceReset-or-PossDup' if either else '?'} path]", ok,
                          f"`{short(node.ast)}` re-uses the message's own number on a path that is none of raw_seq_num / SequenceReset / PossDupFlag=Y", loc(node.ast))
         else:
             ctx.instance(rule, f"Codec.encode[{short(node.ast, 40)} reaches 34=]", False,
                          f"`{short(node.ast)}` can reach the emitted 34= field: the sequence number is neither allocated nor the one the message carried", loc(node.ast))
-    ctx.instance(rule, "Codec.encode[both sources present]", n_alloc == 1 and n_carry >= 3, f"{n_alloc} allocating and {n_carry} carrying definitions reach 34=", loc(call))
+    ctx.instance(rule, "Codec.encode[both sources present]", n_alloc >= 1 and n_carry >= 1, f"{n_alloc} allocating and {n_carry} carrying definitions reach 34=", loc(call))
     # allocator shape
     al = repo.func("FIXSession.allocate_next_num_out")
     ag = CFG(al)
